@@ -9,8 +9,8 @@ class C19(Prop):
     rule = ("histories of MatchStandaloneSnapshot/MatchStandaloneJSON calls (1-3 tests, 0-12 calls each, "
             "arbitrary byte values incl. CR, 1-2 executions, then a replay process under a random mode); "
             "distinct = distinct op list; non-trivial = at least one standalone call wrote or compared a file")
-    outside_model = ("value formatting (kr/pretty, tidwall/pretty) is input to the model; '%' in names is outside "
-                     "the modelled Sprintf (finding K8), shared Filename across interleaved tests is finding K9")
+    outside_model = ("value formatting (kr/pretty, tidwall/pretty) is input to the model; "
+                     "shared Filename across interleaved tests is finding K9")
     trusted = ["kr/pretty formats a string value as itself (checked by the harness on every call)"]
 
     def gen(self, rng, tier):
@@ -22,10 +22,10 @@ class C19(Prop):
             ops = []
             handles = [0]
             if r.chance(1, 2):
-                ops.append(G.op_newconfig(dir=b"d1", ext=r.choice([None, b".txt", b""]),
+                ops.append(G.op_newconfig(dir=r.choice([b"d1", b"d1", b"d%1", b"100%/d"]), ext=r.choice([None, b".txt", b"", b".%d"]),
                                           upd=r.choice([None, None, True, False])))
                 handles.append(1)
-            tests = r.shuffle(G.TEST_NAMES)[: r.range(1, 3)]
+            tests = r.shuffle(G.TEST_NAMES + G.PCT_NAMES + G.PCT_STANDALONE)[: r.range(1, 3)]
             per_test = {}
             seqs = []
             for t in tests:
@@ -108,8 +108,11 @@ class C19(Prop):
                 else:
                     p = unhx(writes[0].split(":", 1)[1])
                     base = p.rsplit(b"/", 1)[-1]
-                    if (b"_%d." % k) not in base and b"%" not in unhx(kv["test"]):
-                        fails.append({"msg": "obs %d: call #%d of the execution wrote %r" % (idx, k, p)})
+                    # <Filename, or the test name with / replaced by _>_<k>.snap<Ext>: for every name, '%' included (fix F8)
+                    stem = unhx(cfg["fn"]) if cfg["fn"] not in ("~", "-") else unhx(kv["test"]).replace(b"/", b"_")
+                    want = stem + b"_" + str(k).encode() + b".snap" + (unhx(ext) if ext != "-" else b"")
+                    if base != want.rsplit(b"/", 1)[-1]:
+                        fails.append({"msg": "obs %d: call #%d of the execution wrote %r, the property text says file %r" % (idx, k, p, want)})
             elif writes:
                 fails.append({"msg": "obs %d: outcome %s but writes %s" % (idx, o["outcome"], writes)})
         # file contents at the checkpoints: every file written last by an added/updated call = its value
